@@ -254,8 +254,22 @@ def r3_wire(ctx, nf) -> None:
     if not feasible:
         ctx.broken("ExtOp.to_custom_op: no feasible path for a resolved op")
     descr_field = prog.cls("hugr.ext.OpDef").find_field("description") is not None
+
+    def nonopt(t):
+        """a choice on `self.<f> is None` for a field of Custom that cannot be None is no choice (the same feasibility argument as for
+        the guards above, for helpers the engine folds into one conditional term)"""
+        if not isinstance(t, tuple) or not t:
+            return t
+        t = tuple(nonopt(x) if isinstance(x, tuple) else x for x in t)
+        if t[0] == "ite" and t[1][0] == "op" and t[1][1] in ("cmp:IsNot", "cmp:Is") and t[1][2][1] == ("const", None):
+            x = t[1][2][0]
+            if x[0] == "attr" and x[1] == s:
+                f_ = cus.find_field(x[2])
+                if f_ is not None and "None" not in f_.annotation and "Optional" not in f_.annotation:
+                    return t[2] if t[1][1] == "cmp:IsNot" else t[3]
+        return t
     for i, (term, node) in enumerate(feasible):
-        a = {k: strip_resolve(rewrite(v)) for k, v in ctor_args(fill_defaults(nf, term)).items()} if term[0] == "ctor" else {}
+        a = {k: nonopt(strip_resolve(rewrite(v))) for k, v in ctor_args(fill_defaults(nf, term)).items()} if term[0] == "ctor" else {}
         for f in ("op_name", "extension", "signature", "args"):
             ctx.check(a.get(f) == attr(s, f), "C11.R3", f"hugr.ops.Custom -> ExtOp -> opaque form: {f}", xo.module.path, node.lineno,
                       f"after resolution the serialized `{f}` of the operation differs from the original (modulo resolution of nested types)", node,
